@@ -85,8 +85,7 @@ pub fn run(run: &Run) {
     run.rule(
         "cases = (constructor, u64 input with input/unit-per-second < 2^32): enumerated boundaries (0, unit multiples +-1, powers of two +-1, \
          largest admissible values); the first and last 8 sub-second values of 1.2 M whole-second counts; 65536 inputs on either side of every \
-         multiple (x1..x130) of every power of two 2^24..2^52; every input below 2^26 (thorough: from_ms over its WHOLE domain of 2^32*1000 \
-         inputs, from_us below 2^36); then uniform / log-uniform / (seconds, remainder) random inputs; non-trivial = sub-second part != 0 and \
+         multiple (x1..x130) of every power of two 2^24..2^52; every input below 2^26 (thorough: from_ms below 2^37, from_us below 2^36); then uniform / log-uniform / (seconds, remainder) random inputs; non-trivial = sub-second part != 0 and \
          whole seconds != 0; distinct by (constructor, input)",
     );
     run.assume("oracle: seconds*10^6 + microseconds == input expressed in microseconds, computed in u128; overflow checks are on in the build");
@@ -185,13 +184,13 @@ pub fn run(run: &Run) {
         }
         rep
     });
-    // (3) whole ranges: quick = every input below 2^26; thorough = from_ms over its WHOLE domain (2^32 * 1000 inputs) and
-    //     from_us below 2^36
+    // (3) whole ranges: quick = every input below 2^26; thorough = from_ms below 2^37 and from_us below 2^36 (the whole from_ms domain of
+    //     2^32 * 1000 inputs would take about two hours on 16 cores)
     let (ms_blocks, us_blocks, block) = match run.tier {
         Tier::Quick => (1u64, 1u64, 1u64 << 26),
-        Tier::Thorough => (((1u64 << 32) * 1000).div_ceil(1 << 28), 1 << 8, 1 << 28),
+        Tier::Thorough => (1 << 9, 1 << 8, 1 << 28),
     };
-    run.enumerate("dense-from_ms", ms_blocks, run.tier == Tier::Thorough, |b| {
+    run.enumerate("dense-from_ms", ms_blocks, false, |b| {
         let mut rep = BlockReport::default();
         sweep(1000, b * block, (b + 1) * block - 1, &mut rep);
         if b == 0 {
